@@ -46,6 +46,51 @@ def _simple(c, g):
     return ("other:" + c[:50], g.value if g.value is not None else g.variant)
 
 
+_WALK = None
+
+
+def _canonical_walk():
+    """the 13 paths of one round of the pre-order walk that reports ERROR/MISSING nodes and skips their subtrees"""
+    out = set()
+    def moves(cons, effs, flag):
+        if flag:
+            out.add((frozenset(cons | {("next_sibling", True)}), effs, "loop", False))
+            out.add((frozenset(cons | {("next_sibling", False), ("parent", True)}), effs, "loop", True))
+            out.add((frozenset(cons | {("next_sibling", False), ("parent", False)}), effs, "exit", None))
+        else:
+            out.add((frozenset(cons | {("first_child", True)}), effs, "loop", False))
+            out.add((frozenset(cons | {("first_child", False)}), effs, "loop", True))
+    for rep_cons, variant in (({("is_error", True)}, "Unexpected"), ({("is_error", False), ("is_missing", True)}, "Missing")):
+        effs = ("build:" + variant, "push")
+        out.add((frozenset(set(rep_cons) | {("first_only", True)}), effs, "exit", None))
+        moves(set(rep_cons) | {("first_only", False)}, effs, True)
+    for old in (True, False):
+        moves({("is_error", False), ("is_missing", False), ("flag_old", old)}, (), old)
+    return out
+
+
+def _walk_semantics(f, body, lp):
+    """True when the loop realises exactly the canonical rounds; otherwise a short description of the difference"""
+    from ..lib.pathsem import loop_paths
+    if lp[0] is None:
+        return "no loop"
+    flags = [l for l, d in enumerate(body.locals) if f.ty(d["ty"]).k == "bool" and d.get("name") and l > body.arg_count
+             and any(dd[0] in lp[1] for dd in body.defs().get(l, []) if dd[0] is not None)]
+    fo = [l for l in range(1, body.arg_count + 1) if f.ty(body.locals[l]["ty"]).k == "bool"]
+    if len(flags) != 1 or len(fo) != 1:
+        return "state flag / first_only parameter not identified (%d/%d)" % (len(flags), len(fo))
+    atoms = {r"tree_sitter::Node::<'tree>::is_error$": "is_error", r"tree_sitter::Node::<'tree>::is_missing$": "is_missing",
+             r"TreeCursor::<'\w+>::goto_next_sibling$": "next_sibling", r"TreeCursor::<'\w+>::goto_parent$": "parent", r"TreeCursor::<'\w+>::goto_first_child$": "first_child"}
+    res, complete = loop_paths(body, lp[0], lp[1], atoms, {r"Vec::<T, A>::push$": "push"}, {fo[0]: ("atom", "first_only")}, flags[0],
+                               agg_effects={"tsg::parse_error::ParseError": "build:"})
+    want = _canonical_walk()
+    if complete and res == want:
+        return True
+    missing = [(sorted(c), e, o, v) for c, e, o, v in want - res][:2]
+    extra = [(sorted(c), e, o, v) for c, e, o, v in res - want][:2]
+    return "missing rounds %s; unexpected rounds %s%s" % (missing, extra, "" if complete else " (some tests could not be interpreted)")
+
+
 def traversal(prog, rep):
     rep.rule("C18.T", "find_errors is the fixed pre-order walk that reports error/missing nodes and skips their subtrees")
     fe = [f for f in prog.fns.values() if f.name == "find_errors" and f.file == "src/parse_error.rs"]
@@ -64,7 +109,17 @@ def traversal(prog, rep):
         table = {}
         loops = natural_loops(body)
         lp = max(loops, key=lambda x: len(x[1])) if loops else (None, set())
-        if dvc is None:
+        # ---- semantic form: what one round of the walk does, path by path (independent of how the branches are written)
+        sem_ok = _walk_semantics(f, body, lp)
+        rep.check(sem_ok is True, "C18.T", "find_errors :: round semantics", f.loc(),
+                  "13 paths: report ERROR / MISSING (stop if first_only, else skip the subtree), otherwise descend; then next sibling, else parent, else stop",
+                  "one round of the walk does not behave as the pre-order walk that skips reported subtrees: %s" % (sem_ok,))
+        if sem_ok is True:
+            dvc = dvc if dvc is not None else -1
+            table = None
+        if table is None:
+            pass
+        elif dvc is None:
             rep.violation("C18.T", "anchor-lost:did_visit_children", f.loc(), "walk state flag not found")
         else:
             for (b, idx, kind, payload) in body.defs().get(dvc, []):
@@ -102,6 +157,11 @@ def traversal(prog, rep):
                       "the walk has additional/conditional transitions: %s" % [sorted(k) for k in extra][:3])
         # reports: push(Unexpected(node)) under is_error, push(Missing(node)) under !is_error ∧ is_missing; node = cursor.node()
         reps = {}
+        if sem_ok is True:
+            # the pushed value is the node under the cursor
+            nodes = {canon(strip(a)) for b in sorted(body.reachable()) for st in body.blocks[b]["stmts"] if st["k"] == "assign" and st["rv"]["k"] == "aggregate" and st["rv"].get("adt") == "tsg::parse_error::ParseError"
+                     for a in [tr.operand(st["rv"]["ops"][0])]}
+            rep.check(nodes == {"TreeCursor::node(&Tree::walk(&*arg:tree))"}, "C18.T", "find_errors :: reports", f.loc(), "the reported node is the cursor's current node", "reported nodes: %s" % sorted(nodes))
         for b, t in body.calls():
             if is_callee(t, r"Vec::<T, A>::push$"):
                 v = strip(tr.operand(t["args"][1]))
@@ -109,7 +169,8 @@ def traversal(prog, rep):
                     conds = {_simple(canon(g.cond), g) for g in dominating_guards(body, tr, b)}
                     conds = {c for c in conds if c[0] in ("is_error", "is_missing")}
                     reps[v[3]] = (frozenset(conds), canon(v[5][0]))
-        rep.check(reps.get("Unexpected") == (frozenset({("is_error", True)}), "TreeCursor::node(&Tree::walk(&*arg:tree))") and
+        if sem_ok is not True:
+          rep.check(reps.get("Unexpected") == (frozenset({("is_error", True)}), "TreeCursor::node(&Tree::walk(&*arg:tree))") and
                   reps.get("Missing") == (frozenset({("is_error", False), ("is_missing", True)}), "TreeCursor::node(&Tree::walk(&*arg:tree))"),
                   "C18.T", "find_errors :: reports", f.loc(), "ERROR → Unexpected(node), MISSING → Missing(node), node = the cursor's current node", "reports changed: %s" % reps)
         # first_only stops after the push
@@ -120,7 +181,7 @@ def traversal(prog, rep):
                     back = lp[0] in body.reach_from([g.dst]) if lp[0] is not None else True
                     pushed = any(body.term(x)["k"] == "call" and is_callee(body.term(x), r"Vec::<T, A>::push$") and body.dominates(x, b) for x in lp[1])
                     brk.append((not back) and pushed)
-        rep.check(len(brk) == 2 and all(brk), "C18.T", "find_errors :: first_only stops", f.loc(), "after the first report the loop is left", "first_only does not stop the walk right after the first report")
+        rep.check(sem_ok is True or (len(brk) == 2 and all(brk)), "C18.T", "find_errors :: first_only stops", f.loc(), "after the first report the loop is left", "first_only does not stop the walk right after the first report")
         # skipped only when the root has no error
         he = [g for b in sorted(body.reachable()) for g in switch_edges(body, tr, b) if canon(g.cond) == "Node::has_error(&Tree::root_node(&*arg:tree))"]
         okh = any(g.value is False and not any(body.term(x)["k"] == "call" and is_callee(body.term(x), r"Tree::walk$") for x in body.reach_from([g.dst])) for g in he) and \
